@@ -100,11 +100,15 @@ def flatten(x, out=None):
         for v in x:
             flatten(v, out)
     elif isinstance(x, numpy.ndarray):
+        if x.ndim == 0:
+            return flatten(x.item(), out)       # 0-d array and scalar are the same argument
         out.append(('shape', x.shape))
         for v in x.ravel():
             flatten(v, out)
     elif hasattr(x, 'values') and hasattr(x, 'index'):
         flatten(numpy.asarray(x.values, dtype=object), out)
+    elif hasattr(x, 'pressure_mode') and hasattr(x, 'material'):
+        out.append(('isotherm', type(x).__name__))
     elif callable(x) and not symx.is_sym(x):
         out.append(('callable', getattr(x, '__name__', getattr(getattr(x, 'func', None), '__name__', type(x).__name__))))
     else:
